@@ -10,10 +10,14 @@
     occurrence of every compiled non-empty pattern is in the list returned by
     the run, bound at the position of the occurrence; likewise for matrices
     (c02_matrix, keys non-negative as produced by every MatrixPattern).  For port
-    graphs only the abstract statement is proved (c02_portgraph_partial). *)
+    graphs the abstract statement is proved in general (c02_portgraph_partial,
+    c02_portgraph_embedding_accepted); at run level the property is false in
+    general (known findings D5, D6, D10) and proved where none of them can
+    interfere: c02_portgraph_run_reports_embeddings_of_good_patterns. *)
 From PM Require Import Model.Prelude Model.Domain Model.Automaton Model.DomString Model.DomMatrix
   Model.Traversal Spec.Occ Cert.WfCheck Cert.WinCheck Cert.CharCert Cert.ExampleAut Proofs.WinSound Proofs.StringRun
-  Model.DomPGKeys Model.DomPG Model.DomPGPattern Cert.PGCert Proofs.PGComplete Proofs.PGEmbedComplete Proofs.MatrixRun.
+  Model.DomPGKeys Model.DomPG Model.DomPGPattern Cert.PGCert Proofs.PGComplete Proofs.PGEmbedComplete Proofs.MatrixRun
+  Proofs.PGSingleGood Proofs.PGWalkEmbed.
 
 Theorem c02_cert_complete_partial :
   forall (K P : Type) (entails refutes : list (constraint K P) -> constraint K P -> bool)
@@ -123,6 +127,28 @@ Proof.
   intros d Hd. vm_compute in Hd. destruct Hd as [<-|[<-|[]]]; vm_compute; reflexivity.
 Qed.
 
+(** Port graphs, run level, where it holds.  P passes the per-pattern validation
+    [pg_good_pattern] (single index root; the pattern's own walks from the root
+    reach every keyed node at the recorded distance: no line returns to its start),
+    the automaton is well-formed, passes the completeness certificate with the
+    constraint list of P at position i, and all of its keys are keys of P
+    ([aut_keys_in]: P compiled alone, or with patterns over the same keys - so that
+    no binding foreign to the embedding can be made, which is what goes wrong in
+    D10).  Then the breadth-first run on any well-formed host reports every
+    embedding of P, every recorded key bound to the image of its node. *)
+Theorem c02_portgraph_run_reports_embeddings_of_good_patterns :
+  forall (P : pghost) (root : N) cs nk (H : pghost) (f : N -> N)
+         (A : automaton pgkey pgpred) rk ids css pres i fuel ms,
+    pg_cvec_full P root = Ok (cs, nk) -> lines_sound P root = true -> keys_distinct nk = true ->
+    pg_good_pattern P root cs nk = true -> pg_host_wfb P = true -> pg_host_wfb H = true ->
+    pg_embedding P H root nk f ->
+    wf_check pg_dom A rk ids = true -> cert_complete pg_entails pg_refutes A css pres = true ->
+    nth_error css i = Some cs -> nth_error pres i = Some true -> aut_keys_in nk A = true ->
+    run pg_dom fuel A H = Ok ms ->
+    exists st keys b, In st (au_states A) /\ In (N.of_nat i, keys) (a_matches st) /\ In (N.of_nat i, b) ms
+      /\ forall k, In k keys -> exists u, In (u, k) nk /\ pgget b k = Some (f u).
+Proof. exact pg_run_reports_embedding. Qed.
+
 Print Assumptions c02_cert_complete_partial.
 Print Assumptions c02_string_partial.
 Print Assumptions c02_string.
@@ -130,3 +156,4 @@ Print Assumptions c02_matrix.
 Print Assumptions c02_matrix_partial.
 Print Assumptions c02_portgraph_partial.
 Print Assumptions c02_portgraph_embedding_accepted.
+Print Assumptions c02_portgraph_run_reports_embeddings_of_good_patterns.
